@@ -35,7 +35,68 @@ def plan(tier):
     n = 300 if tier == "quick" else 5000
     for i in range(8):
         shards.append({"kind": "hyp", "n": n})
+    # "...so an upload is never declared unhappy when a happy layout was reachable": whole uploads on the in-process grid
+    for i in range(8):
+        shards.append({"kind": "upload", "n": 100 if tier == "quick" else 1000})
     return shards
+
+
+@st.composite
+def upload_cases(draw):
+    k = draw(st.integers(1, 3))
+    n = draw(st.integers(k, 6))
+    # (the selector only ever considers the first 2N servers of the permuted list, by design: keep every server a candidate)
+    ns = draw(st.integers(1, min(8, 2 * n)))
+    # ok / read-only by configuration / full when the client connects / full only afterwards (the client's picture of it is stale)
+    kinds = [draw(st.sampled_from(["ok", "ok", "ok", "ok", "readonly", "full-announced", "full-later", "full-later", "fail-allocate", "fail-allocate-once"])) for _ in range(ns)]
+    return {"mode": "upload", "k": k, "n": n, "happy": draw(st.integers(1, n)), "kinds": kinds, "size": draw(st.sampled_from([56, 100, 300])), "hsalt": draw(st.integers(0, 15)),
+            "sched": draw(st.lists(st.integers(0, 9), max_size=30))}
+
+
+def run_upload_case(case, ctx):
+    from vf.grid import Grid
+    from vf.core import pbytes
+    from allmydata.immutable.upload import Data
+    from allmydata.interfaces import UploadUnhappinessError, NoServersError
+    k, n, happy, kinds = case["k"], case["n"], case["happy"], case["kinds"]
+    skw = {i: ({"readonly_storage": True} if kd == "readonly" else {}) for i, kd in enumerate(kinds)}
+    g = Grid(ctx.casedir(), len(kinds), {"k": k, "n": n, "happy": happy, "max_segment_size": 64}, server_kw=skw, nclients=0, choices=case["sched"])
+    classes = {"upload"}
+    try:
+        for s_, kd in zip(g.servers, kinds):
+            if kd == "full-announced":
+                s_.ss.get_available_space = lambda: 0
+        c = g.add_client({"k": k, "n": n, "happy": happy, "max_segment_size": 64})
+        for s_, kd in zip(g.servers, kinds):
+            if kd == "full-later":
+                s_.ss.get_available_space = lambda: 0
+                classes.add("upload-with-server-that-filled-up-after-connecting")
+            elif kd == "fail-allocate":
+                s_.fail["allocate_buckets"] = "all"
+            elif kd == "fail-allocate-once":
+                # (a server whose allocation failed is not asked for new shares again in this upload, by design)
+                s_.fail["allocate_buckets"] = {0}
+                classes.add("upload-with-failing-allocate")
+        r = g.run(c.upload(Data(pbytes(2, case["size"]), convergence=b"c07")))
+        # no share exists anywhere beforehand, so the servers that cannot take a share contribute nothing: the best layout puts
+        # one share on each server that can, up to N
+        reachable = min(n, len([kd for kd in kinds if kd == "ok"]))
+        desc = "k=%d N=%d happy=%d servers=%r" % (k, n, happy, kinds)
+        if r[0] == "hang":
+            ctx.fail("hang", "%s: the upload never completed" % desc)
+        elif reachable >= happy and len(kinds) > 2 * n:
+            # the selector considers only the first 2N servers of the permuted list (by design): which of them take shares is not modelled here
+            classes.add("upload-more-than-2N-servers")
+        elif reachable >= happy:
+            classes.add("upload-happy-reachable")
+            ctx.check(r[0] == "ok", "unhappy-although-reachable", "%s: %d servers can each take a share, so happiness %d is reachable, but the upload ended with %s" % (
+                desc, len([kd for kd in kinds if kd == "ok"]), reachable, type(r[1]).__name__ + ": " + str(r[1])[:200] if r[0] == "err" else r[0]), stale="full-later" in kinds)
+        else:
+            classes.add("upload-happy-unreachable")
+            ctx.check(r[0] == "err" and isinstance(r[1], (UploadUnhappinessError, NoServersError)), "happy-although-unreachable", "%s: happiness %d is the best reachable, yet the upload ended with %r" % (desc, reachable, r[0]))
+    finally:
+        g.stop()
+    ctx.note(sig=repr(sorted(case.items())), nontrivial=any(kd != "ok" for kd in kinds), classes=sorted(classes), sample={"k": k, "n": n, "happy": happy, "kinds": kinds})
 
 
 @st.composite
@@ -63,11 +124,16 @@ def run_shard(spec, ctx):
                 for romask in range(0, (1 << S) - 1):
                     yield {"mode": "bits", "S": S, "H": H, "bits": b, "romask": romask}
         ctx.enumerate(gen(), run_case)
+    elif spec["kind"] == "upload":
+        from vf import boot
+        ctx.drive(upload_cases(), spec["n"], run_upload_case)
     else:
         ctx.drive(cases(), spec["n"], run_case)
 
 
 def run_case(case, ctx):
+    if case.get("mode") == "upload":
+        return run_upload_case(case, ctx)
     from allmydata.immutable.happiness_upload import share_placement
     S, H = case["S"], case["H"]
     if case["mode"] == "bits":
